@@ -119,6 +119,17 @@ func (s *Spec) GenValue(t *Type, r *HashRng, leafPath string, sink FileSink, dep
 		}
 		out := make([]interface{}, 0, n)
 		for i := 0; i < n; i++ {
+			if s.LastRow != "" && depth == 0 && i == n-1 && n > 1 && (t.Elem.Kind == KArray || t.Elem.Kind == KTMap) {
+				// the last row is empty / null while earlier rows have content
+				if s.LastRow == "null" {
+					out = append(out, nil)
+				} else if t.Elem.Kind == KArray {
+					out = append(out, []interface{}{})
+				} else {
+					out = append(out, map[string]interface{}{})
+				}
+				continue
+			}
 			out = append(out, s.GenValue(t.Elem, r, fmt.Sprintf("%s.%d", leafPath, i), sink, depth+1))
 		}
 		return out
